@@ -30,7 +30,7 @@ func heapIndexFields(p *Program) map[*types.TypeName]*types.Var {
 				return true
 			}
 			if f := fieldOf(info, as.Lhs[0]); f != nil {
-				if _, isIdx := ast.Unparen(ast.Unparen(as.Lhs[0]).(*ast.SelectorExpr).X).(*ast.IndexExpr); isIdx {
+				if _, isIdx := ast.Unparen(resolveLocalAlias(u, ast.Unparen(as.Lhs[0]).(*ast.SelectorExpr).X)).(*ast.IndexExpr); isIdx {
 					out[named.Obj()] = f
 				}
 			}
@@ -252,51 +252,101 @@ func schedQueueRemovalCancel(c *Ctx) *RuleResult {
 		if !ok {
 			continue
 		}
-		qobj := info.ObjectOf(qid)
-		// the lookup of an existing queue: q, ok := bq.sizeClassQueues[key]
-		var lookup ast.Node
-		ast.Inspect(u.Decl.Body, func(n ast.Node) bool {
-			la, ok := n.(*ast.AssignStmt)
-			if !ok || len(la.Lhs) != 2 || len(la.Rhs) != 1 {
-				return true
-			}
-			if ix, ok := ast.Unparen(la.Rhs[0]).(*ast.IndexExpr); ok && fieldOf(info, ix.X) == scqs {
-				if lid, ok := la.Lhs[0].(*ast.Ident); ok && info.ObjectOf(lid) == qobj {
-					lookup = la
+		// decide(u, queue variable, registration point): "" = ok, "skip" = no lookup here
+		var decide func(u *FuncUnit, qobj types.Object, to ast.Node, depth int) string
+		decide = func(u *FuncUnit, qobj types.Object, to ast.Node, depth int) string {
+			info := u.Info()
+			var lookup ast.Node
+			ast.Inspect(u.Decl.Body, func(n ast.Node) bool {
+				la, ok := n.(*ast.AssignStmt)
+				if !ok || len(la.Lhs) != 2 || len(la.Rhs) != 1 {
+					return true
 				}
-			}
-			return true
-		})
-		if lookup == nil {
-			continue
-		}
-		construct := constructOf(u, "register worker in existing queue")
-		g := NewFuncCFG(info, u.Decl.Body)
-		barrier := func(n ast.Node) bool {
-			switch x := n.(type) {
-			case *ast.SelectorExpr:
-				// any use of the queue's cleanupKey (isActive test / removal)
-				if fieldOf(info, x) == ck {
-					if id, ok := rootOfSelector(x).(*ast.Ident); ok && info.ObjectOf(id) == qobj {
-						return true
+				if ix, ok := ast.Unparen(la.Rhs[0]).(*ast.IndexExpr); ok && fieldOf(info, ix.X) == scqs {
+					if lid, ok := la.Lhs[0].(*ast.Ident); ok && info.ObjectOf(lid) == qobj {
+						lookup = la
 					}
 				}
-			case *ast.AssignStmt:
-				// the queue variable is re-bound to a new queue
-				if x != lookup {
-					for _, l := range x.Lhs {
-						if lid, ok := l.(*ast.Ident); ok && info.ObjectOf(lid) == qobj {
+				return true
+			})
+			if lookup == nil {
+				// the queue is handed in by the caller: decided at every call site
+				if depth > 1 {
+					return "skip"
+				}
+				pi := -2
+				sig := u.Fn.Type().(*types.Signature)
+				if sig.Recv() != nil && sig.Recv() == qobj {
+					pi = -1
+				}
+				for i := 0; i < sig.Params().Len(); i++ {
+					if sig.Params().At(i) == qobj {
+						pi = i
+					}
+				}
+				sites := CallsTo(units, u.Fn)
+				if pi == -2 || len(sites) == 0 {
+					return "skip"
+				}
+				res := "skip"
+				for _, cs := range sites {
+					call := cs.Node.(*ast.CallExpr)
+					var arg ast.Expr
+					if pi == -1 {
+						if sel, ok := ast.Unparen(call.Fun).(*ast.SelectorExpr); ok {
+							arg = sel.X
+						}
+					} else if pi < len(call.Args) {
+						arg = call.Args[pi]
+					}
+					aid, ok := rootOfSelector(arg).(*ast.Ident)
+					if !ok || ast.Unparen(arg) != ast.Expr(aid) {
+						continue
+					}
+					switch d := decide(cs.Unit, cs.Unit.Info().ObjectOf(aid), call, depth+1); d {
+					case "skip":
+					case "":
+						if res == "skip" {
+							res = ""
+						}
+					default:
+						res = d
+					}
+				}
+				return res
+			}
+			g := NewFuncCFG(info, u.Decl.Body)
+			barrier := func(n ast.Node) bool {
+				switch x := n.(type) {
+				case *ast.SelectorExpr:
+					if fieldOf(info, x) == ck {
+						if id, ok := rootOfSelector(x).(*ast.Ident); ok && info.ObjectOf(id) == qobj {
 							return true
 						}
 					}
+				case *ast.AssignStmt:
+					if x != lookup {
+						for _, l := range x.Lhs {
+							if lid, ok := l.(*ast.Ident); ok && info.ObjectOf(lid) == qobj {
+								return true
+							}
+						}
+					}
 				}
+				return false
 			}
-			return false
+			if reach, _ := g.ReachableWithout(lookup, to, barrier); reach {
+				return posOf(p, to)
+			}
+			return ""
 		}
-		if reach, _ := g.ReachableWithout(lookup, as, barrier); reach {
-			r.bad(c.Prop, construct, posOf(p, as), "a worker can be registered in a size class queue that was found in the map without the queue's pending removal having been cancelled: the queue (and its platform queue) is removed underneath the live worker, which is then told to idle and handed a second task")
-		} else {
+		construct := constructOf(u, "register worker in existing queue")
+		switch d := decide(u, info.ObjectOf(qid), as, 0); d {
+		case "skip":
+		case "":
 			r.ok(construct, posOf(p, as), "pending removal of the queue is cancelled (or the queue is new) on every path")
+		default:
+			r.bad(c.Prop, construct, d, "a worker can be registered in a size class queue that was found in the map without the queue's pending removal having been cancelled: the queue (and its platform queue) is removed underneath the live worker, which is then told to idle and handed a second task")
 		}
 	}
 	return r
